@@ -261,12 +261,12 @@ Definition cli_exchange (auth : bool) (lia : Z) (lh : bytes) (ria : Z) (rh : byt
           let m := client_run macf c false 0 (map (fun r => (pv_rx (fst r), snd r)) resps) in
           let agree :=
             match m, res with
-            | CAccept i a, [VZ 0; VZ j; VZ b] => (Z.of_nat i =? j) && Bool.eqb a (negb (b =? 0))
+            | CAccept i a, VZ 0 :: VZ j :: VZ b :: _ => (Z.of_nat i =? j) && Bool.eqb a (negb (b =? 0))
             | CErr _ cls, [VZ 1; VZ c'] => cls =? c'
             | CTimeout, [VZ 2] => true
             | _, _ => false
             end in
-          let accepted := match res with [VZ 0; VZ j; VZ _] => Some (Z.to_nat j) | _ => None end in
+          let accepted := match res with VZ 0 :: VZ j :: VZ _ :: _ => Some (Z.to_nat j) | _ => None end in
           let oracle := C13_cli_ok auth (pv_rx req) (pv_mac req) (map (fun r => (pv_rx (fst r), pv_mac (fst r))) resps) accepted
                         && C13_cli_from_queried_ok lia lh ria rh (map (fun r => (pv_rx (fst r), pv_mac (fst r))) resps) accepted in
           Some (agree, oracle)
@@ -308,12 +308,15 @@ Fixpoint cli_keyed_exchanges (strict wanted : bool) (lia : Z) (lh : bytes) (l : 
       match cli_exchange (wanted && keyok) lia lh ria rh (VL [reqv; VL respsv; VL res]), parse_resps respsv, parse_kreqs rs,
             cli_keyed_exchanges strict wanted lia lh r with
       | Some (a1, o1), Some resps, Some kreqs, Some (a, o) =>
-          let accepted := match res with [VZ 0; VZ j; VZ _] => Some (Z.to_nat j) | _ => None end in
+          let accepted := match res with VZ 0 :: VZ j :: VZ _ :: _ => Some (Z.to_nat j) | _ => None end in
           let so := if strict then C13_cli_strict_ok wanted keyok (negb (epochok =? 0))
                                      (map (fun r => (pv_rx (fst r), pv_mac (fst r))) resps) accepted else true in
           (* the model's client fetches the key once per measurement when authentication is enabled, never otherwise *)
           let fetch_agree := zlen kreqs =? (if wanted then 1 else 0) in
-          Some (a1 && fetch_agree && a, o1 && forallb (cli_keyreq_ok lia lh ria rh) kreqs && so && o)
+          (* the timestamps handed to the filter are those of accepted responses (this one's, or in
+             interleaved mode the previously accepted one's receive timestamp): decided by the harness *)
+          let tsok := match res with [VZ 0; VZ _; VZ _; VZ t] => negb (t =? 0) | [VZ 8] => false | _ => true end in
+          Some (a1 && fetch_agree && a, o1 && forallb (cli_keyreq_ok lia lh ria rh) kreqs && so && tsok && o)
       | _, _, _, _ => None
       end
   | _ => None
